@@ -134,7 +134,9 @@ TSinkWrite == /\ IsEv("sw")
               /\ UNCHANGED << cfg, phase, v, a, clockV, clockA, shadow, sunk, res >>
 
 SinkFinishSigs(c, e) ==
-    IF ~Has(e, "flen") \/ Crashed(e) \/ phase # "open" THEN {}
+    IF phase # "open" THEN {}
+    ELSE IF Crashed(e) THEN (IF sk.failed THEN {Sig("C13", "ErrIffFailed", c.how, "panic-instead-of-error")} ELSE {})    \* a failing sink must surface as Err(Io)
+    ELSE IF ~Has(e, "flen") THEN {}
     ELSE (IF e.ok /\ sk.failed THEN {Sig("C13", "ErrIffFailed", c.how, "ok-despite-failure")} ELSE {})
     \cup (IF ~e.ok /\ ~sk.failed THEN {Sig("C13", "ErrIffFailed", c.how, ToString(<< "error-without-failure", e.var >>))} ELSE {})
     \cup (IF ~e.ok /\ sk.failed /\ e.var # "Io" THEN {Sig("C13", "ErrIffFailed", c.how, ToString(<< "wrong-error", e.var >>))} ELSE {})
